@@ -7,6 +7,7 @@ open PyamgV PyamgV.K PyamgV.Drv
 
 def mkR (n ap aj ax : String) : Csr Rat := ⟨nat n, parseNats ap, parseNats aj, parseRats ax⟩
 def mkC (n ap aj ax : String) : Csr CRat := ⟨nat n, parseNats ap, parseNats aj, parseCRats ax⟩
+def sweepOf (s : String) : Sweep := if s = "backward" then .backward else if s = "symmetric" then .symmetric else .forward
 def sw (s0 s1 s2 : String) : List Nat := sweepIdx (int s0) (int s1) (int s2)
 
 def handle : List String → Option String
@@ -42,6 +43,20 @@ def handle : List String → Option String
     some <| showRats (jacobiNE id (parseRat om) (mkR n ap aj ax) (parseRats delta) (sw s0 s1 s2) (parseRats x))
   | ["cjacne", om, n, ap, aj, ax, delta, x, s0, s1, s2] =>
     some <| showCRats (jacobiNE CRat.conj (parseCRat om) (mkC n ap aj ax) (parseCRats delta) (sw s0 s1 s2) (parseCRats x))
+  | ["pygs", om, n, ap, aj, ax, b, x, iters, sweep] =>
+    some <| showRats (pyGaussSeidel (parseRat om) (mkR n ap aj ax) (parseRats b) (nat iters) (sweepOf sweep) (parseRats x))
+  | ["cpygs", om, n, ap, aj, ax, b, x, iters, sweep] =>
+    some <| showCRats (pyGaussSeidel (CRat.ofRat (parseRat om)) (mkC n ap aj ax) (parseCRats b) (nat iters) (sweepOf sweep) (parseCRats x))
+  | ["pyjac", om, n, ap, aj, ax, b, x, iters] =>
+    some <| showRats (pyJacobi (parseRat om) (mkR n ap aj ax) (parseRats b) (nat iters) (parseRats x))
+  | ["cpyjac", om, n, ap, aj, ax, b, x, iters] =>
+    some <| showCRats (pyJacobi (parseCRat om) (mkC n ap aj ax) (parseCRats b) (nat iters) (parseCRats x))
+  | ["pygsi", n, ap, aj, ax, b, x, idx, iters, sweep] =>
+    some <| showRats (pyGaussSeidelIndexed (mkR n ap aj ax) (parseRats b) (parseNats idx) (nat iters) (sweepOf sweep) (parseRats x))
+  | ["pyjaci", om, n, ap, aj, ax, b, x, idx, iters] =>
+    some <| showRats (pyJacobiIndexed (parseRat om) (mkR n ap aj ax) (parseRats b) (parseNats idx).toList (nat iters) (parseRats x))
+  | ["pycfjac", cfirst, om, n, ap, aj, ax, b, x, cpts, fpts, iters, fit, cit] =>
+    some <| showRats (pyCFJacobi (cfirst = "1") (parseRat om) (mkR n ap aj ax) (parseRats b) (parseNats cpts).toList (parseNats fpts).toList (nat iters) (nat fit) (nat cit) (parseRats x))
   | _ => none
 
 end PyamgV.Drv.Relax
